@@ -44,6 +44,13 @@ HERE=$(cd "$(dirname "$0")/.." && pwd)
 mkdir -p "$S/harness"
 for h in "$HERE"/harness/c/*.c; do
   b=$(basename "$h" .c)
+  if [ "$b" = svcstub ]; then
+    # stand-alone (started by the daemon as a service program): no sanitizer, no dbus
+    if [ ! -x "$S/harness/$b" ] || [ "$h" -nt "$S/harness/$b" ]; then
+      gcc -O1 -o "$S/harness/$b" "$h" >>"$LOG" 2>&1 || { echo "HARNESS BUILD FAILED ($b), see $LOG" >&2; exit 2; }
+    fi
+    continue
+  fi
   if [ ! -x "$S/harness/$b" ] || [ "$h" -nt "$S/harness/$b" ] || [ "$S/build/lib/libdbus-internal.a" -nt "$S/harness/$b" ] || [ "$S/build/lib/libdbus-daemon-internal.a" -nt "$S/harness/$b" ]; then
     LIBS="$S/build/lib/libdbus-internal.a -L$S/build/lib -ldbus-1 -Wl,-rpath,$S/build/lib"
     case "$b" in connpair) LIBS="$S/build/lib/libdbus-testutils.a $S/build/lib/libdbus-internal.a -L$S/build/lib -ldbus-1 -Wl,-rpath,$S/build/lib";; esac
